@@ -423,6 +423,7 @@ func (c *sctx) Err() error {
 	c.cancelLocked()
 	return context.Canceled
 }
+
 // wake makes a waiter re-check (the call returned).
 func (c *sctx) wake() { c.mu.Lock(); c.cond.Broadcast(); c.mu.Unlock() }
 
@@ -690,6 +691,7 @@ func main() {
 	t1 := time.Now()
 	runFree(w, r.Fork(), nFree)
 	runMisc(w, o.Out)
+	runDeadlines(w, r.Fork(), o.Count(3, 20))
 	t2 := time.Now()
 	w.Extra["det_s"] = t1.Sub(t0).Seconds()
 	w.Extra["free_s"] = t2.Sub(t1).Seconds()
